@@ -15,7 +15,7 @@ LEVEL = "exploration"
 RULE = (
     "family 'table': one case = (p, anomaly kind collective/point, assignment of a saving level from {0,1,3,7,15} to "
     "every column, penalty scale or callable, detection penalty family); all 5^p assignments are enumerated for "
-    "p = 2..4 (quick) / 2..6 (thorough, p=6 with levels {0,1,3,7}). family 'data': every 2- and 3-column matrix over "
+    "p = 2..4 and, on reduced level alphabets, 5 and 6 (quick) / 2..6 (thorough, p=6 with levels {0,1,3,7}). family 'data': every 2- and 3-column matrix over "
     "the alphabet with L2Saving. For each reported anomaly the affected columns are compared with the sorted-prefix "
     "optimum under the sparse penalty (point penalty for point anomalies) and transform must mark exactly them. "
     "Non-trivial = an anomaly is reported and the optimal subset is a proper subset or the savings are not all equal."
@@ -208,8 +208,10 @@ def check_data(acc, case):
 
 def cases(tier, seed):
     q = tier == "quick"
-    for p in (2, 3, 4) if q else (2, 3, 4, 5, 6):
+    for p in (2, 3, 4, 5, 6):
         levels = LEVELS if p < 6 else LEVELS[:4]
+        if q and p >= 5:  # quick: wide data on a reduced level alphabet (the penalty families only differ from p = 5 on)
+            levels = (LEVELS[0], LEVELS[1], LEVELS[3]) if p == 5 else (LEVELS[0], LEVELS[2])
         pens = [("scale", s) for s in (0.1, 0.5, 1.0, 2.0)] + [("family", f, 0.3) for f in ("combined", "dense", "sparse")]
         pens += [("callable", 0.5, [1.0] * p), ("callable", 0.0, [0.5 * (j + 1) for j in range(p)]), ("callable", 1.0, [2.0] + [0.0] * (p - 1))]
         if p >= 5:
@@ -227,6 +229,14 @@ def cases(tier, seed):
                     yield {"fam": "table", "p": p, "kind": "collective", "levels": list(lv), "pen": ["scale", 0.5], "at": list(at), "nparam": 2}
                 for at in ((0, 1), (6, 7)):
                     yield {"fam": "table", "p": p, "kind": "point", "levels": list(lv), "pen": ["scale", 0.5], "at": list(at)}
+    # WEAK columns: a saving that is positive but below the sparse per-component penalty (0.5 < 2 * 0.3 * log p), next to
+    # clearly affected columns, under the detection families whose own per-component terms are smaller than the sparse ones
+    for p in (3, 4, 5, 6):
+        for lv in itertools.product((0, 0.5, 7), repeat=p):
+            if 7 not in lv:
+                continue
+            for fam in ("combined", "dense"):
+                yield {"fam": "table", "p": p, "kind": "collective", "levels": list(lv), "pen": ["family", fam, 0.3]}
     a, b = util.seed_affine(seed)
     for p, tops in ((2, 4 if q else 5), (3, 3 if q else 4)):
         for n in range(2, tops + 1):
@@ -249,7 +259,7 @@ def shards(tier, seed):
 
 
 def bounds(tier, seed):
-    return {"p": "2..4 (quick) / 2..6 (thorough)", "levels": list(LEVELS), "n": 7, "anomaly positions": "collective [2,5) (also [0,2), [5,7), [3,7) for p<=3), point [3,4) (also [0,1), [6,7))",
+    return {"p": "2..4 full, 5 with levels (0,1,7), 6 with levels (0,3) (quick) / 2..6 (thorough)", "levels": list(LEVELS), "weak_levels(p=3..6, combined/dense detection)": [0, 0.5, 7], "n": 7, "anomaly positions": "collective [2,5) (also [0,2), [5,7), [3,7) for p<=3), point [3,4) (also [0,1), [6,7))",
             "penalties": "sparse inference scales (0.1, 0.5, 1, 2); detection families combined/dense/sparse at 0.3; three callable point penalties",
             "data": "all 2-column matrices over (0,3) and its seed-affine image n<=4/5; 3-column over (0,3) n<=3/4; thorough: 2-column (0,1,3) n=4"}
 
